@@ -188,6 +188,7 @@ func runC01Multi(c *Ctx, w *ATWorld) {
 			kind = 'D'
 		}
 		var parts []string
+		keyAssigned := false
 		for k := 0; k < 2+r.Intn(2); k++ {
 			row := cs.Rows[r.Intn(len(cs.Rows))] // the same row may be hit by several statements
 			st := &ATStmt{Kind: kind, Where: keyCond(row)}
@@ -200,6 +201,12 @@ func runC01Multi(c *Ctx, w *ATWorld) {
 				}
 				if r.Chance(20) {
 					st.Where = &ATCond{Op: "cmp:e", E: []*ATExpr{{K: 'c', Col: sc.PK[0]}, {K: 'l', Val: ATVal{K: 'i', I: 777000 + int64(k)}}}} // selects no row
+				}
+				if i%6 == 5 && k == 1 {
+					// one statement of the batch moves a row to another key: refused like the single statement
+					// (the executor cannot undo it), or undone like any other — never half
+					keyAssigned = true
+					st.Sets = []ATSet{{Col: sc.PK[0], Plus: sc.PK[0], E: &ATExpr{K: 'l', Val: ATVal{K: 'i', I: 100000}}}}
 				}
 			}
 			st.Spell = []int{0, 0, 1, 3}[r.Intn(4)]
@@ -237,6 +244,8 @@ func runC01Multi(c *Ctx, w *ATWorld) {
 		switch {
 		case crash != "":
 			class = "crash"
+		case execErr != nil && keyAssigned && mid == initial:
+			// refused, and nothing done: what the single statement gets
 		case execErr != nil:
 			class = "multi_statement_exec_refused"
 		case allOK && final != initial:
